@@ -133,6 +133,16 @@ SaverInit == [dump |-> [v \in VB |-> NoOff], ddirty |-> {}, wr |-> {}, gen |-> 0
 CntInit == [crash |-> 0, saves |-> 0, acks |-> 0, notify |-> 0, ends |-> 0, fail |-> 0]
 NoClose == [on |-> FALSE, who |-> "none", left |-> {}]
 
+\* Save captures the map POINTERS (GetOffsets) before it uses them: savers between that read and their dump keep
+\* the old maps when the stream installs new ones (UnmarkDirtyOffsets, Close, Load)
+Holders == {u \in SaveThreads : spc[u] = (IF "F1" \in Bugs THEN "want" ELSE "take")}
+Frozen(doD, doO) ==
+  [u \in SaveThreads |->
+     IF u \in Holders
+     THEN [sv[u] EXCEPT !.dlive = IF doD THEN FALSE ELSE @, !.dsnapm = IF doD /\ sv[u].dlive THEN dirty ELSE @,
+                        !.olive = IF doO THEN FALSE ELSE @, !.osnapm = IF doO /\ sv[u].olive THEN offs ELSE @]
+     ELSE sv[u]]
+
 Init ==
   /\ up = FALSE /\ slog = InitLog /\ wire = [v \in VB |-> <<>>] /\ store = [v \in VB |-> NoOff]
   /\ info = Info0 /\ cnt = CntInit
@@ -204,7 +214,7 @@ Boot ==
   /\ spc' = [t \in SaveThreads |-> "idle"] /\ sv' = [t \in SaveThreads |-> SaverInit]
   /\ rpc' = [t \in RbThreads |-> "idle"] /\ dpc' = [v \in VB |-> "idle"] /\ reop' = {}
   /\ wire' = [v \in VB |-> <<>>]
-  /\ Emit(<<[ev |-> "Boot", auto |-> AutoCkpt, member |-> info[1], total |-> info[2]]>> \o OpenBeginEvs)
+  /\ Emit(<<[ev |-> "Boot", auto |-> AutoCkpt, finite |-> Finite, member |-> info[1], total |-> info[2]]>> \o OpenBeginEvs)
   /\ UNCHANGED <<slog, store, info, cnt>>
 
 \* metadata.Load returns; runs to the GetVBucketSeqNos gate; failure => panic in Load
@@ -237,17 +247,17 @@ SeqNosRet(ok) ==
   /\ up /\ opc = "seqnos" /\ Prompt
   /\ (~ok => cnt.fail < MaxFail)
   /\ UNCHANGED <<slog, wire, store, info, rng, open, active, balancing, cwc, finClose, finEnd, rebalances, stopped,
-                 ctxs, synVars, dcwc, opener, opened, clo, spc, sv, rpc, dpc, reop>>
+                 ctxs, synVars, dcwc, opener, opened, clo, spc, rpc, dpc, reop>>
   /\ IF ~ok THEN /\ opc' = "none" /\ cnt' = [cnt EXCEPT !.fail = @ + 1] /\ Die(<<SeqNosEv(FALSE)>>)
-                 /\ UNCHANGED <<obsvVars, offs, dirty, flag, obsNil, foleft, live>>
+                 /\ UNCHANGED <<obsvVars, offs, dirty, flag, obsNil, foleft, live, sv>>
      ELSE IF Ahead                                     \* checkpoint beyond the vBucket's high seqno: panic
-     THEN /\ opc' = "none" /\ Die(<<SeqNosEv(TRUE)>>) /\ UNCHANGED <<cnt, obsvVars, offs, dirty, flag, obsNil, foleft, live>>
+     THEN /\ opc' = "none" /\ Die(<<SeqNosEv(TRUE)>>) /\ UNCHANGED <<cnt, obsvVars, offs, dirty, flag, obsNil, foleft, live, sv>>
      ELSE /\ UNCHANGED <<up, mpc, cnt>>
           /\ IF LatestBranch          \* the maps are installed only when Load returns, after the failover-log queries
              THEN /\ opc' = "folog" /\ foleft' = Cardinality(RangeSet) /\ Emit(<<SeqNosEv(TRUE)>>)
-                  /\ UNCHANGED <<obsvVars, obsNil, live, offs, dirty, flag>>
+                  /\ UNCHANGED <<obsvVars, obsNil, live, offs, dirty, flag, sv>>
              ELSE /\ offs' = [v \in VB |-> IF InRange(v) THEN LoadedOff(v) ELSE NoOff]
-                  /\ dirty' = {} /\ flag' = FALSE
+                  /\ dirty' = {} /\ flag' = FALSE /\ sv' = Frozen(TRUE, TRUE)
                   /\ StartOpening(<<SeqNosEv(TRUE)>>) /\ UNCHANGED foleft
 
 \* GetFailOverLogs of one more vb returns (latest branch only; sequential, l.141-168)
@@ -255,17 +265,17 @@ FoLogRet(ok) ==
   /\ up /\ opc = "folog" /\ foleft > 0 /\ Prompt
   /\ (~ok => cnt.fail < MaxFail)
   /\ UNCHANGED <<slog, wire, store, info, rng, open, active, balancing, cwc, finClose, finEnd,
-                 rebalances, stopped, ctxs, synVars, dcwc, opener, opened, clo, spc, sv, rpc, dpc, reop>>
+                 rebalances, stopped, ctxs, synVars, dcwc, opener, opened, clo, spc, rpc, dpc, reop>>
   /\ IF ~ok THEN /\ opc' = "none" /\ cnt' = [cnt EXCEPT !.fail = @ + 1] /\ Die(<<[ev |-> "Fail", what |-> "FoLog"]>>)
-                 /\ UNCHANGED <<obsvVars, obsNil, foleft, live, offs, dirty, flag>>
+                 /\ UNCHANGED <<obsvVars, obsNil, foleft, live, offs, dirty, flag, sv>>
      ELSE /\ UNCHANGED <<up, mpc, cnt>>
           /\ foleft' = foleft - 1
           /\ IF foleft = 1
              THEN /\ offs' = [v \in VB |-> IF InRange(v) THEN LoadedOff(v) ELSE NoOff]
                   /\ dirty' = {v \in RangeSet : HighOf(v) # 0}
-                  /\ flag' = (\E v \in RangeSet : HighOf(v) # 0)
+                  /\ flag' = (\E v \in RangeSet : HighOf(v) # 0) /\ sv' = Frozen(TRUE, TRUE)
                   /\ StartOpening(<<>>)
-             ELSE /\ Emit(<<>>) /\ UNCHANGED <<opc, obsvVars, obsNil, live, offs, dirty, flag>>
+             ELSE /\ Emit(<<>>) /\ UNCHANGED <<opc, obsvVars, obsNil, live, offs, dirty, flag, sv>>
 
 \* the last stream is open: rest of Open (l.265-271) and, for the timer goroutine, of rebalance (l.318-322)
 OpenRetEv(v, ok, rb, f) == [ev |-> "OpenRet", vb |-> v, ok |-> ok, uuid |-> IF ok THEN FoUuid[v] ELSE 0,
@@ -450,10 +460,22 @@ SaveLockBody(t) ==
           /\ sv' = [sv EXCEPT ![t].dump = om, ![t].ddirty = dm, ![t].wr = {}]
           /\ UNCHANGED <<dirty, flag>>
           /\ Emit(<<[ev |-> "SaveBegin", t |-> t, dump |-> om, dirty |-> SortedSeq(dm)]>>)
-  ELSE /\ slock' = slock \cup {sv[t].gen} /\ spc' = [spc EXCEPT ![t] = "storing"]
-       /\ sv' = [sv EXCEPT ![t].dump = offs, ![t].ddirty = dirty, ![t].wr = {}]
-       /\ flag' = FALSE /\ dirty' = {}
-       /\ Emit(<<[ev |-> "SaveBegin", t |-> t, dump |-> offs, dirty |-> SortedSeq(dirty)]>>)
+  ELSE \* lock taken, flag read (it is up): parked at vhook "save.take" (entry of UnmarkDirtyOffsets)
+       /\ slock' = slock \cup {sv[t].gen} /\ spc' = [spc EXCEPT ![t] = "take"]
+       /\ UNCHANGED <<sv, dirty, flag>>
+       /\ Emit(<<>>)
+
+\* UnmarkDirtyOffsets (the dirty set is taken over), dump of offsets and of the taken set, metadata.Save is entered
+SaveTake(t) ==
+  /\ up /\ spc[t] = "take" /\ Prompt
+  /\ spc' = [spc EXCEPT ![t] = "storing"]
+  /\ LET om == IF sv[t].olive THEN offs ELSE sv[t].osnapm
+         dm == IF sv[t].dlive THEN dirty ELSE sv[t].dsnapm
+     IN /\ sv' = [Frozen(TRUE, FALSE) EXCEPT ![t] = [sv[t] EXCEPT !.dump = om, !.ddirty = dm, !.wr = {}]]
+        /\ Emit(<<[ev |-> "SaveBegin", t |-> t, dump |-> om, dirty |-> SortedSeq(dm)]>>)
+  /\ flag' = FALSE /\ dirty' = {}
+  /\ UNCHANGED <<envVars, obsvVars, offs, rng, open, obsNil, active, balancing, cwc, finClose, finEnd, rebalances, stopped, ctxs,
+                 synVars, mpc, dcwc, opener, opc, opened, live, foleft, clo, rpc, dpc, reop>>
 
 \* the backend makes the checkpoint of one dirty vb durable (one write per dirty vb, any order)
 StoreWrite(t, v) ==
@@ -470,9 +492,7 @@ SaveRetBody(t, ok) ==   \* flag', dirty', sv' after metadata.Save returned
   IF "F1" \in Bugs
   THEN IF ok
        THEN /\ flag' = FALSE /\ dirty' = {}
-            \* savers that captured the old dirty map keep it
-            /\ sv' = [u \in SaveThreads |-> IF spc[u] = "want" /\ sv[u].dlive
-                                            THEN [sv[u] EXCEPT !.dlive = FALSE, !.dsnapm = dirty] ELSE sv[u]]
+            /\ sv' = Frozen(TRUE, FALSE)
        ELSE UNCHANGED <<flag, dirty, sv>>
   ELSE IF ok THEN UNCHANGED <<flag, dirty, sv>>
        ELSE /\ flag' = (flag \/ sv[t].ddirty # {}) /\ dirty' = dirty \cup sv[t].ddirty /\ UNCHANGED sv
@@ -491,11 +511,12 @@ ArmRebalance(ts) == Append(ts, [fn |-> "rebalance", st |-> "armed"])
 \* rest of Close once every CloseStream returned (l.434-449), then the continuation of thread who:
 \*  - notification thread: AfterRebalanceStart, arm the timer, return (the rebalance lock stays held)
 \*  - main: rest of dcp.close: DcpClose, Close of the client; Start returns
-\* assigns oendclosed obsNil offs dirty open tokC tokE waits wpark clo mpc timers cur rpc emitv
+\* assigns oendclosed obsNil offs dirty sv open tokC tokE waits wpark clo mpc timers cur rpc emitv
 CloseTail(who, pre) ==
   LET p == IF finEnd THEN <<tokC, tokE, waits, wpark, FALSE>> ELSE Put("close", tokC, tokE, waits, wpark) IN
   /\ oendclosed' = [v \in VB |-> TRUE] /\ obsNil' = TRUE
   /\ offs' = [v \in VB |-> NoOff] /\ dirty' = {} /\ open' = FALSE
+  /\ sv' = Frozen(TRUE, TRUE)
   /\ tokC' = p[1] /\ tokE' = p[2] /\ waits' = p[3] /\ wpark' = p[4]
   /\ clo' = NoClose
   /\ IF who = "main"
@@ -512,12 +533,12 @@ CloseRet(v) ==
   /\ up /\ clo.on /\ v \in clo.left /\ Prompt
   /\ UNCHANGED <<up, slog, wire, store, info, cnt, osnap, ouuid, ocatch, oclosed, ocnt, flag, rng, active, balancing, cwc,
                  finClose, finEnd, rebalances, stopped, ctxs, rlock, slock, cgen, dcwc, opener, opc, opened, live, foleft,
-                 spc, sv, dpc, reop>>
+                 spc, dpc, reop>>
   /\ IF clo.left = {v}
      THEN CloseTail(clo.who, <<>>)
      ELSE /\ clo' = [clo EXCEPT !.left = @ \ {v}]
           /\ Emit(<<>>)
-          /\ UNCHANGED <<oendclosed, obsNil, offs, dirty, open, tokC, tokE, waits, wpark, timers, cur, mpc, rpc>>
+          /\ UNCHANGED <<oendclosed, obsNil, offs, dirty, sv, open, tokC, tokE, waits, wpark, timers, cur, mpc, rpc>>
 
 -----------------------------------------------------------------------------
 (* dcp.Close() / SIGTERM, or the stream stopped on its own: the main thread leaves its select and     *)
@@ -661,7 +682,7 @@ CloseEmpty ==
   /\ up /\ clo.on /\ clo.left = {} /\ Prompt
   /\ UNCHANGED <<up, slog, wire, store, info, cnt, osnap, ouuid, ocatch, oclosed, ocnt, flag, rng, active, balancing, cwc,
                  finClose, finEnd, rebalances, stopped, ctxs, rlock, slock, cgen, dcwc, opener, opc, opened, live, foleft,
-                 spc, sv, dpc, reop>>
+                 spc, dpc, reop>>
   /\ CloseTail(clo.who, <<>>)
 
 \* a timer fires
@@ -775,6 +796,7 @@ Step(l) ==
     [] l.a = "Ack"        -> Ack(l.i)
     [] l.a = "SaveStart"  -> SaveStart(l.t)
     [] l.a = "SaveLock"   -> SaveLock(l.t)
+    [] l.a = "SaveTake"   -> SaveTake(l.t)
     [] l.a = "StoreWrite" -> StoreWrite(l.t, l.vb)
     [] l.a = "SaveRet"    -> SaveRet(l.t, l.ok)
     [] l.a = "CloseCall"  -> CloseCall
@@ -804,7 +826,7 @@ Labels ==
   \cup (IF Hold THEN [a : {"ConsRet"}, vb : VB] ELSE {})
   \cup (IF MaxAcks > 0 THEN [a : {"Ack"}, i : 1..MaxCtx] ELSE {})
   \cup [a : {"SaveStart"}, t : Savers]
-  \cup [a : {"SaveLock"}, t : IF AutoCkpt THEN SaveThreads ELSE Savers]
+  \cup [a : {"SaveLock", "SaveTake"}, t : IF AutoCkpt THEN SaveThreads ELSE Savers]
   \cup [a : {"StoreWrite"}, t : IF AutoCkpt THEN SaveThreads ELSE Savers, vb : VB]
   \cup [a : {"SaveRet"}, t : IF AutoCkpt THEN SaveThreads ELSE Savers, ok : IF FailSaves THEN BOOLEAN ELSE {TRUE}]
   \cup (IF Life THEN [a : {"CloseEmpty"}] \cup [a : {"WaitFin"}, k : {"close", "end"}] \cup [a : {"CloseRet"}, vb : VB]
@@ -827,6 +849,7 @@ Parked ==
   \cup (IF opc = "opening" THEN {"lib:OpenStream:" \o ToString(v) : v \in RangeSet \ opened} ELSE {})
   \cup {"lib:OpenStream:" \o ToString(v) : v \in reop}
   \cup {t \o "@save.prelock" : t \in {u \in SaveThreads : spc[u] = "want"}}
+  \cup {t \o "@save.take" : t \in {u \in SaveThreads : spc[u] = "take"}}
   \cup {t \o "@md.Save" : t \in {u \in SaveThreads : spc[u] = "storing"}}
   \cup {"lib:CloseStream:" \o ToString(v) : v \in (IF clo.on THEN clo.left ELSE {})}
   \cup (IF rpc["api"] = "want" THEN {"api@rb.prelock"} ELSE {})
@@ -855,6 +878,7 @@ Spec == Init /\ [][Next]_vars
 
 -----------------------------------------------------------------------------
 C01 == NoViol(obs, "C01") /\ C01State(obs)
+C02 == NoViol(obs, "C02")
 C03 == NoViol(obs, "C03")
 C04 == NoViol(obs, "C04")
 C05 == NoViol(obs, "C05")
